@@ -26,6 +26,7 @@ RULE = (
     "that tie on their offset are split in every process"
     "; every sixth case also registers 1-3 retarget_symbol_uses requests (chains included) and is repeated with them registered in another order"
     "; the command-line driver (_driver_core) is run on saved modules with 2-5 --run passes that all insert at the entry of every function"
+    "; two symbols of one name on different blocks with a patch that names it"
     "; patches use the scratch registers they are given (so the allocation shows in the bytes); rewrites whose patches have prologues are repeated inside one worker process and must give the same module again"
 )
 ASSUMPTIONS = [
@@ -104,6 +105,18 @@ def vary(case, rng, k):
     if k % 6 == 5:
         # retarget_symbol_uses requests (chains A->B, B->C included) registered in the same context
         emodify.add_retargets(rng, case, n=rng.choice([1, 2, 2, 3]), chains=True)
+    if k % 8 == 6:
+        # two symbols of one name (file-local functions of different translation units) on different blocks, and a
+        # patch that names it: which of the two the operand and the edge refer to must not depend on set order
+        code = [i for i, d in enumerate(case["text"]) if d["kind"] == "code" and d["insns"]]
+        if len(code) >= 2:
+            i, j = rng.sample(code, 2)
+            for x in (i, j):
+                case["text"][x]["syms"].append({"name": "dup", "at_end": False})
+            host = rng.choice(code)
+            off = rng.choice(emodify.block_layout(case["text"][host])[:-1])
+            if not any(e["block"] == host and e["off"] <= off < e["off"] + max(e.get("len", 0), 1) for e in case["edits"]):
+                case["edits"].append({"op": "insert", "block": host, "off": off, "asm": rng.choice(["call dup", "leaq dup(%rip), %rax", "jne dup"])})
     if k % 7 == 2:
         return three_callers(rng)
     if k % 11 == 3:
